@@ -3,6 +3,7 @@ correspondence obligations of the property, its oracles on every trace, its pair
 from __future__ import annotations
 
 import json
+import copy
 import random
 
 from harness.common import Driver, NonFinite, np
@@ -421,6 +422,22 @@ def one_scenario(pid, sc, res, dr, stats, C, dist, seen_nontrivial, phases, add_
                                       capital_perm=rr.sample(range(Np), Np))
                 if not np.allclose(np.asarray(mp.productive_capital, dtype=float).ravel(), c["K"], rtol=1e-12, atol=0):
                     add_violation({"property": "C07", "t": 0, "what": "capital stock differs when the table and the ratio dictionary are given in another label order"}, sc)
+                # the capital stock is value added (from the flows Z and the output x) times the ratio, also when the
+                # technical coefficients supplied with the table are only consistent with them to within the accepted
+                # tolerance (published with 8 decimals)
+                if sc["model"]["capital"]["kind"] in ("default", "dict") and tbp["scale"] >= 1:
+                    import types
+                    sc_r = copy.deepcopy(sc)
+                    sc_r["table"]["A_round"] = 8
+                    jb = sc["seed"] % Np
+                    sc_r["table"]["Y"][jb] = [abs(v) * 1e4 + 1.0 for v in sc_r["table"]["Y"][jb]]
+                    try:
+                        m_r = scen.build_model(sc_r["table"], sc_r["model"])
+                        for v in oracles.c07_capital(types.SimpleNamespace(sc=sc_r), oracles.consts(m_r)):
+                            v["what"] += " (technical coefficients published with 8 decimals)"
+                            add_violation(v, sc_r)
+                    except Exception as e:
+                        add_violation({"property": "C07", "t": 0, "what": f"a table whose coefficients are rounded to 8 decimals is refused: {type(e).__name__}: {str(e)[:100]}"}, sc_r)
             # paired runs
             pnames = props.PAIRED.get(pid, [])
             if pnames:
@@ -432,6 +449,8 @@ def one_scenario(pid, sc, res, dr, stats, C, dist, seen_nontrivial, phases, add_
                         vs = fn(sc, base)
                     elif pn in ("c18_variants", "c18_orders"):
                         vs = fn(sc, sc["seed"])
+                    elif pn == "c05_loop":
+                        vs = fn(sc, base, sc["seed"], tr)
                     else:
                         vs = fn(sc, base, sc["seed"])
                     for v in vs:
